@@ -1268,9 +1268,10 @@ pub fn main(args: &util::Args) {
         }
     }
     // minimised witnesses kept under corpus/DCE, corpus/C02, corpus/C09
-    for sub in ["DCE", "C02", "C09"] {
+    // (+ the coverage witnesses `corpus/C01/cov-*.gom`: shapes no generator produced, tools/coverage_audit.py)
+    for sub in ["DCE", "C02", "C09", "C01"] {
         let Ok(rd) = std::fs::read_dir(util::verif_root().join("corpus").join(sub)) else { continue };
-        let mut files: Vec<_> = rd.filter_map(|e| e.ok().map(|e| e.path())).filter(|p| p.extension().is_some_and(|x| x == "gom")).collect();
+        let mut files: Vec<_> = rd.filter_map(|e| e.ok().map(|e| e.path())).filter(|p| p.extension().is_some_and(|x| x == "gom")).filter(|p| sub != "C01" || p.file_name().is_some_and(|n| n.to_string_lossy().starts_with("cov-"))).collect();
         files.sort();
         let dir = util::scratch_dir("dcec");
         for f in files {
@@ -1304,6 +1305,7 @@ pub fn main(args: &util::Args) {
             effects: true,
             wildcard_arrays: false,
             nested_patterns: i % 4 == 1,
+            cov_shapes: i % 6 == 4,
             ..Default::default()
         };
         let (src, _) = crate::progen::gen_program(&mut rng, cfg);
